@@ -86,6 +86,13 @@ func wellFormedFrame(b []byte, cap int) bool {
 	return wellFormedPayload(b[4:], cap)
 }
 
+func clip(s string) string {
+	if len(s) > 80 {
+		return s[:80] + "..."
+	}
+	return s
+}
+
 func runDecode(c *vh.Ctx, b []byte, tag string) *hsms.DataMessage {
 	cap := hsms.VerifFrameCap()
 	in := append([]byte(nil), b...)
@@ -95,8 +102,54 @@ func runDecode(c *vh.Ctx, b []byte, tag string) *hsms.DataMessage {
 	ro, _ := renderGuarded(func() (hsms.Message, error) { return hsms.DecodeOwnedHSMSPayload(own1) })
 	own2 := append([]byte(nil), b...)
 	rv, _ := renderGuarded(func() (hsms.Message, error) { return hsms.VerifFrameDecodeOwned(own2) })
-	line := fmt.Sprintf("X %s | %s | %s | %s | %s", fr.Hex(b), rm, rp, ro, rv)
+	// the fifth entry point: DataMessageCodec.UnmarshalBinary (a length-prefixed frame, data
+	// messages only) — on a zero-value codec and on a codec that already wraps a message
+	renderCodec := func(cd *hsms.DataMessageCodec) string {
+		prev := cd.Message
+		in2 := append([]byte(nil), b...)
+		var err error
+		panicked := func() (p bool) {
+			defer func() {
+				if recover() != nil {
+					p = true
+				}
+			}()
+			err = cd.UnmarshalBinary(in2)
+			return false
+		}()
+		switch {
+		case panicked:
+			return "PANIC"
+		case err == nil && cd.Message != nil && cd.Message != prev:
+			return "OK " + fr.RenderMsg(cd.Message)
+		case err == nil:
+			return "OK-WITHOUT-MESSAGE"
+		}
+		if cd.Message != prev {
+			return "E-BUT-MESSAGE-REPLACED"
+		}
+		if cl := fr.DecErr(err); cl != "B" || m == nil {
+			return "E " + cl
+		}
+		return "E C" // the frame decodes, to a control message: refused by the data-message codec
+	}
+	rc := renderCodec(&hsms.DataMessageCodec{})
+	wrapped := hsms.NewEmptyDataMessage().Codec()
+	rc2 := renderCodec(wrapped)
+	line := fmt.Sprintf("X %s | %s | %s | %s | %s | %s", fr.Hex(b), rm, rp, ro, rv, rc)
 	c.Case(line, line, true)
+	{
+		want := rm // same acceptance and same message as DecodeHSMSMessage ...
+		if m != nil {
+			if _, isData := m.ToDataMessage(); !isData {
+				want = "E C" // ... except that a control frame is not a data message
+			}
+		}
+		if rc != want || rc2 != want {
+			c.Fail(fmt.Sprintf("DataMessageCodec.UnmarshalBinary (zero codec: %s; codec wrapping a message: %s) disagrees with DecodeHSMSMessage (%s) on the same bytes",
+				clip(rc), clip(rc2), clip(want)), line)
+		}
+	}
 	c.Count("X/" + tag + "/msg=" + strings.Fields(rm)[0] + "/payload=" + strings.Fields(rp)[0])
 
 	// ---- implementation-level oracle ----
@@ -260,7 +313,7 @@ func mutate(c *vh.Ctx, f []byte) ([]byte, string) {
 	r := c.Rng
 	b := append([]byte(nil), f...)
 	cap := uint32(hsms.VerifFrameCap())
-	switch r.Intn(9) {
+	switch r.Intn(12) {
 	case 0: // length field rewrite
 		vals := []uint32{0, 1, 9, 10, 11, uint32(len(b) - 5), uint32(len(b) - 3), cap - 1, cap, cap + 1, 1 << 31, 1<<32 - 1, uint32(len(b))}
 		binary.BigEndian.PutUint32(b[:4], vals[r.Intn(len(vals))])
@@ -297,6 +350,26 @@ func mutate(c *vh.Ctx, f []byte) ([]byte, string) {
 			binary.BigEndian.PutUint32(b[:4], uint32(len(b)-4))
 		}
 		return b, "body-trunc"
+	case 8: // a second frame right behind the first (the length field covers only the first)
+		var g []byte
+		if r.Intn(2) == 0 {
+			g = dataFrame(r, c)
+		} else {
+			g = ctrlFrame(c)
+		}
+		return append(b, g...), "concat"
+	case 9: // 1..4 stray bytes behind a valid frame
+		for k := 1 + r.Intn(4); k > 0; k-- {
+			b = append(b, byte(r.Intn(256)))
+		}
+		return b, "stray"
+	case 10: // the length field lowered / raised by 1..4 (still >= 10 when it can be)
+		n := int64(binary.BigEndian.Uint32(b[:4])) + int64([]int{-4, -3, -2, -1, 1, 2, 3, 4}[r.Intn(8)])
+		if n < 0 {
+			n = 0
+		}
+		binary.BigEndian.PutUint32(b[:4], uint32(n))
+		return b, "len+-k"
 	case 7: // single random byte anywhere
 		b[r.Intn(len(b))] = byte(r.Intn(256))
 		return b, "byte"
